@@ -28,7 +28,7 @@ def translate():
 
 
 def histories(rng, tier):
-    n = 180 if tier == 'quick' else 3000
+    n = 500 if tier == 'quick' else 3000
     out = []
     for _ in range(n):
         name = rng.choice(NAMES)
